@@ -84,7 +84,7 @@ def call(cfg, variant=0):
                    right_error_function=cfg["rf"])
     if m == "relative_loss":
         ckw["relative_loss_function"] = {"mae": M.mean_absolute_error, "mse": M.mean_squared_error,
-                                         "mdae": M.median_absolute_error}[cfg["rlf"]]
+                                         "mdae": M.median_absolute_error, "masym": M.mean_asymmetric_error}[cfg["rlf"]]
     f = getattr(M, m)
     val = f(yt, yp, **extra, **ckw, **kw)
     out = [float(v) for v in np.atleast_1d(np.asarray(val, dtype=float)).ravel()]
@@ -156,7 +156,7 @@ def random_cfg(rng):
             "thr": rng.choice([0, 1, -1, 2]) if m == "mean_asymmetric_error" else 0,
             "lf": lf if m == "mean_asymmetric_error" else "squared",
             "rf": ("absolute" if lf == "squared" else "squared") if m == "mean_asymmetric_error" else "absolute",
-            "rlf": rng.choice(["mae", "mse", "mdae"]) if m == "relative_loss" else "mae"}
+            "rlf": rng.choice(["mae", "mse", "mdae", "masym"]) if m == "relative_loss" else "mae"}
 
 
 def run(ctx):
